@@ -23,6 +23,17 @@ import (
 //	    every handle reachable from <param> satisfies the expression afterwards.
 //	except <Kind>[.<Field>] …       kinds/fields excluded (become `requires`
 //	                                 for kinds; listed as assumptions)
+// Reset is the directive `reset <recv> [keep a.b c ...]`: after the call every
+// field of *recv (enumerated from the struct type, so a field added later is in
+// the obligation automatically) is in its empty state - maps and slices have
+// length 0, numbers are 0, booleans false, pointers/interfaces/funcs nil -
+// except the fields listed after keep, which need an explicit ensures if they
+// matter.
+type Reset struct {
+	Param string
+	Keep  []string
+}
+
 type Traverse struct {
 	Mode   string // remap | mark
 	Param  string
@@ -215,7 +226,7 @@ func joinCond(a, b string) string {
 // ensures clauses (cached per engine run; the callee's view at call sites uses
 // the same expansion).
 func (e *Engine) derived(fn *ssa.Function, ctr *Contract) (req, ens []Clause) {
-	if len(ctr.Traverses) == 0 {
+	if len(ctr.Traverses) == 0 && len(ctr.Resets) == 0 {
 		return nil, nil
 	}
 	if e.derivedCache == nil {
@@ -225,6 +236,70 @@ func (e *Engine) derived(fn *ssa.Function, ctr *Contract) (req, ens []Clause) {
 		return c[0], c[1]
 	}
 	name := pkgLabel(ctr.Pkg) + "." + ctr.Fn
+	for _, rs := range ctr.Resets {
+		var pt types.Type
+		for _, p := range fn.Params {
+			if p.Name() == rs.Param {
+				pt = p.Type()
+			}
+		}
+		ptr, ok := pt.(*types.Pointer)
+		if pt == nil || !ok {
+			panic("reset: " + rs.Param + " is not a pointer parameter")
+		}
+		keep := map[string]bool{}
+		for _, k := range rs.Keep {
+			keep[k] = true
+		}
+		var walk func(t types.Type, path string, depth int)
+		walk = func(t types.Type, path string, depth int) {
+			rel := strings.TrimPrefix(path, rs.Param+".")
+			if keep[rel] {
+				e.noteAssumed(fmt.Sprintf("reset %s in %s: field %s is kept (not required to be cleared)", rs.Param, name, rel))
+				return
+			}
+			lbl := "reset:" + rel
+			switch u := t.Underlying().(type) {
+			case *types.Map, *types.Slice:
+				ens = append(ens, Clause{Label: lbl, Src: "len(" + path + ") == 0"})
+			case *types.Basic:
+				switch {
+				case u.Info()&types.IsBoolean != 0:
+					ens = append(ens, Clause{Label: lbl, Src: "!" + path})
+				case u.Info()&types.IsInteger != 0:
+					ens = append(ens, Clause{Label: lbl, Src: path + " == 0"})
+				case u.Info()&types.IsString != 0:
+					ens = append(ens, Clause{Label: lbl, Src: "len(" + path + ") == 0"})
+				default:
+					e.noteAssumed(fmt.Sprintf("reset %s in %s: field %s of type %s is not covered", rs.Param, name, rel, typeShort(t)))
+				}
+			case *types.Pointer, *types.Signature:
+				ens = append(ens, Clause{Label: lbl, Src: path + " == nil"})
+			case *types.Interface:
+				if e.sc.sortOf(t) == "Int" {
+					ens = append(ens, Clause{Label: lbl, Src: path + " == nil"})
+				} else {
+					ens = append(ens, Clause{Label: lbl, Src: "isnil(" + path + ")"})
+				}
+			case *types.Struct:
+				if depth > 3 {
+					return
+				}
+				for i := 0; i < u.NumFields(); i++ {
+					walk(u.Field(i).Type(), path+"."+u.Field(i).Name(), depth+1)
+				}
+			default:
+				e.noteAssumed(fmt.Sprintf("reset %s in %s: field %s of type %s is not covered", rs.Param, name, rel, typeShort(t)))
+			}
+		}
+		st, ok := ptr.Elem().Underlying().(*types.Struct)
+		if !ok {
+			panic("reset: " + rs.Param + " does not point to a struct")
+		}
+		for i := 0; i < st.NumFields(); i++ {
+			walk(st.Field(i).Type(), rs.Param+"."+st.Field(i).Name(), 0)
+		}
+	}
 	for _, tr := range ctr.Traverses {
 		var pt types.Type
 		for _, p := range fn.Params {
